@@ -413,11 +413,28 @@ def file_features(text):
 
 def judge(exp, obs, feats, text):
     """[(difference, finding id or None)] of one observation, [] when it is the expected one"""
-    why = progen.diff(exp, obs)
-    return [] if why is None else [(why, classify(why, feats, text))]
+    # every difference, not the first one only: a difference in a listed class (say, the bind text of a function
+    # written BIND before RESULT) must not hide another defect of the same file (say, its result variable)
+    return [(why, classify(why, feats, text)) for why in progen.diff_all(exp, obs)]
 
 
 PREFIX_WORD_FUNCTION = re.compile(r"^[^!\n]*\([^)\n]*(?:impure|pure|elemental|non_recursive|recursive|module)[^\n]*\)[^\n]*\bfunction\s+(\w+)", re.M)
+
+
+def bind_swallows_parenthesis(why, text):
+    """exactly the listed defect: the difference is the bind text of a function whose statement has BIND(..) in front of
+    RESULT(..), and what FORD reports is the declared bind text followed by one `)`"""
+    import ast
+    m = re.search(r"\[(\w+)\]\.bindC: expected ('.*'|\".*\") observed ('.*'|\".*\")$", why)
+    if not m:
+        return False
+    try:
+        exp, obs = ast.literal_eval(m.group(2)), ast.literal_eval(m.group(3))
+    except Exception:  # noqa
+        return False
+    low = re.sub(r"&[ \t]*(![^\n]*)?\n([ \t]*(![^\n]*)?\n)*[ \t]*&?", "", (text or "").lower())
+    here = re.search(r"\bfunction\s+%s\b[^\n]*\bbind\s*\([^\n]*\)\s*result\s*\(" % re.escape(m.group(1).lower()), low)
+    return bool(here) and obs == exp + ")"
 
 
 def classify(why, feats, text=None):
@@ -429,6 +446,8 @@ def classify(why, feats, text=None):
                 names = set(PREFIX_WORD_FUNCTION.findall(low))
                 if not any(re.search(r"\[%s\]\.(attribs:|retvar\.)" % re.escape(n), why) for n in names):
                     continue
+            if feat == "bind-before-result" and not bind_swallows_parenthesis(why, text):
+                continue
             return fid
     return None
 
@@ -563,9 +582,20 @@ def run(tier: str, seed: int, replay: str | None = None) -> int:
         aq_ = c01_entity.run_argq(ford, random.Random(seed * 474747 + 47), 250 if tier == "quick" else 5000, rep, d, distinct)
         n_dis += en_["disagree"] + ar_["disagree"]
         n_fail += aq_["oracle_fail"]
+        # ---------------- funcre / funcstmt / funcq (FordModel/FuncHead.lean): the statement that opens a function;
+        # files / srcq (FordModel/SrcFiles.lean): the set of source files handed to the parser
+        from harness import c01_func
+        fr_ = c01_func.run_funcre(drv, ford, random.Random(seed * 535353 + 53), 4000 if tier == "quick" else 80000, rep, distinct)
+        fs_ = c01_func.run_funcstmt(drv, ford, random.Random(seed * 595959 + 59), 700 if tier == "quick" else 12000, rep, d, distinct)
+        fq_ = c01_func.run_funcq(ford, random.Random(seed * 616161 + 61), 250 if tier == "quick" else 5000, rep, d, distinct)
+        fl_ = c01_func.run_files(drv, ford, random.Random(seed * 676767 + 67), 400 if tier == "quick" else 6000, rep, d, distinct)
+        sq_ = c01_func.run_srcq(ford, random.Random(seed * 717171 + 71), 50 if tier == "quick" else 800, rep, d, distinct)
+        n_dis += fr_["disagree"] + fs_["disagree"] + fl_["disagree"]
+        n_fail += fq_["oracle_fail"] + sq_["oracle_fail"]
     rep.coverage.update(
         evaluations=len(cases) + n_files + pt["cases"] + pt["groups"] + mk["cases"] + rs["cases"] + lt["cases"] + at["cases"]
-        + aq["spellings"] + tr_["cases"] + ts_["cases"] + tq_["spellings"] + vr_["cases"] + en_["cases"] + ar_["cases"] + aq_["spellings"],
+        + aq["spellings"] + tr_["cases"] + ts_["cases"] + tq_["spellings"] + vr_["cases"] + en_["cases"] + ar_["cases"] + aq_["spellings"]
+        + fr_["cases"] + fs_["cases"] + fq_["spellings"] + fl_["cases"] + sq_["spellings"],
         distinct_nontrivial=len(distinct),
         rule="struct: statement-kind sequences (well-formed nestings, 1-3 point mutations of them, junk), distinct by token "
              "sequence; tree: generated abstract projects x random spellings, one evaluation per source file, distinct by text; "
@@ -581,11 +611,21 @@ def run(tier: str, seed: int, replay: str | None = None) -> int:
              "(name + array / coarray specification / character length in legal order, any order, 1-2 point mutations, junk); "
              "args: one procedure per case (0-4 dummy arguments, declared or not, 0-3 locals, one or several entities per "
              "declaration, the character length in the type specification or after the name); argq: the same abstract procedures "
-             "in two spellings of the character length, one evaluation per spelling",
+             "in two spellings of the character length, one evaluation per spelling; funcre: one statement per case (function "
+             "statements with 0-2 prefix items, keyword-like names, both orders of RESULT / BIND, mutations, other statements, junk); "
+             "funcstmt: one function (statement + declarations) per case; funcq: abstract functions in both suffix orders, one "
+             "evaluation per spelling; files: one directory tree x settings per case (src_dir lists that overlap / repeat, "
+             "exclude_dir, exclude patterns), distinct by tree + settings; srcq: small projects over nested directories, one "
+             "evaluation per spelling of the source directory list",
         samples=samples,
         traces_validated_against_impl=len(cases) + pt["cases"] - pt["unmodelled"] + mk["cases"] - mk["unmodelled"]
         + rs["cases"] - rs["unmodelled"] + at["cases"] + tr_["cases"] - tr_["unmodelled"] + ts_["cases"] - ts_["unmodelled"] + vr_["cases"] - vr_["unmodelled"]
-        + en_["cases"] + ar_["cases"],
+        + en_["cases"] + ar_["cases"] + fr_["cases"] - fr_["unmodelled"] + fs_["cases"] - fs_["unmodelled"] + fl_["cases"] - fl_["unmodelled"],
+        funcre_stream=fr_,
+        funcstmt_stream=fs_,
+        funcq_stream=fq_,
+        files_stream=fl_,
+        srcq_stream=sq_,
         compiled_patterns_vs_modelled=dict(tr.REGEX_HOW),
         vocabulary_words=len(vocab),
         entity_stream=en_,
